@@ -46,7 +46,7 @@ theorem kstep_tmWake {cfg : Cfg} (fuel : Nat) {s : KS} {a : A} {q : QEntry ℚ} 
         rw [hb]; exact e1
       rw [hstep, e1']
       exact closeEvent_ok e3
-    refine ⟨S, { aTick a q.time with tph := upd a.tph seq ph' }, [], [], hS, ?_, ?_, rfl, by simp [aTick]⟩
+    refine ⟨S, { aTick a q.time with tph := upd a.tph seq ph' }, [], [], hS, ?_, ?_, rfl, by simp [aTick], fun x hx => by cases hx⟩
     · refine e2.congr ?_
       simp only [aTmRun, aTick, upd_upd, hcur]
     · refine hiT.set_tph seq ph' (fun _ => ?_)
@@ -100,7 +100,8 @@ theorem kstep_tmWake {cfg : Cfg} (fuel : Nat) {s : KS} {a : A} {q : QEntry ℚ} 
         S := sFire (aTick a q.time).S seq, txs := a.txs ++ (oFire (aTick a q.time).S seq).map txPair,
         tmc := upd a.tmc seq { a.tmc seq with start := q.time, timeout := (sFire (aTick a q.time).S seq).est.rto,
                                               expire := q.time + (sFire (aTick a q.time).S seq).est.rto },
-        tph := upd a.tph seq ph' }, [.fire seq], oFire (aTick a q.time).S seq, hS, ?_, ?_, runLts_one hfire, rfl⟩
+        tph := upd a.tph seq ph' }, [.fire seq], oFire (aTick a q.time).S seq, hS, ?_, ?_, runLts_one hfire, rfl,
+        fun x hx => by simp only [List.mem_singleton] at hx; subst hx; trivial⟩
     · refine e2.congr ?_
       simp only [aFire, aTmRun, aTick, upd_upd, hcur]
     · have hlt : s2.now < ((aFire (aTmRun a seq q) seq).tmc seq).expire := by
